@@ -386,7 +386,7 @@ pub fn main() {
     ck.assume(&format!("fidelity reference: {} `checkout-index -a --prefix=`; only for indices git accepts entry for entry (update-index --index-info, no 'Ignoring path', same entry count)", Git::version()));
     ck.assume("destination_is_initially_empty is only set when nothing but the canary .git directory exists in the destination; the file system is a case-sensitive tmpfs with symlink and executable-bit support");
 
-    ck.sub("sandbox", SubCfg::new(1_200, 30_000).max_len(700).max_shrink(60), |t, c| {
+    ck.sub("sandbox", SubCfg::new(2_000, 50_000).max_len(700).max_shrink(60), |t, c| {
         let spec = gen_case(t, c);
         c.key(&spec);
         let link_prefix = spec.entries.iter().any(|l| {
